@@ -21,6 +21,9 @@ CARRIERS = {
     'F': dict(table='TableG7', bc=0.1, mv_fps=297.0, sight_in=1.0, zero_yd=None, weight=100.0, diameter=0.3, length=1.0, twist=10.0),
     # slow projectile: minimum velocity / altitude limits
     'D': dict(table='TableG7', bc=0.1, mv_fps=300.0, sight_in=1.0, zero_yd=None, weight=100.0, diameter=0.3, length=1.0, twist=10.0),
+    # rated just supersonic (Mach 1.012 at 59 F), but LAUNCHED subsonic: powder sensitivity on, cold powder (the solver must work with the launch velocity)
+    'H': dict(table='TableG1', bc=0.3, mv_fps=1130.0, sight_in=1.5, zero_yd=None, weight=150.0, diameter=0.308, length=1.1, twist=10.0,
+              powder=dict(temp_c=15.0, modifier=0.02, atmo_powder_c=-25.0)),
     # a measured (custom) drag table that does NOT start at Mach 0, and a projectile flying below the midpoint of its first two entries
     'G': dict(table=[{'Mach': 0.4, 'CD': 0.21}, {'Mach': 0.7, 'CD': 0.27}, {'Mach': 0.9, 'CD': 0.40}, {'Mach': 1.1, 'CD': 0.52}, {'Mach': 2.0, 'CD': 0.36}],
               bc=0.2, mv_fps=520.0, sight_in=1.5, zero_yd=None, weight=120.0, diameter=0.3, length=1.0, twist=10.0),
@@ -53,9 +56,12 @@ def make(name, step_ft, wind='none', look_deg=0.0, relative_deg=0.0, cant_deg=0.
     cfg.update(config or {})
     calc = p.Calculator(_config=cfg)
     dm = p.DragModel(c['bc'], getattr(p, c['table']) if isinstance(c['table'], str) else [dict(r) for r in c['table']], U.Grain(c['weight']), U.Inch(c['diameter']), U.Inch(c['length']))
-    ammo = p.Ammo(dm, U.FPS(c['mv_fps']))
+    pw = c.get('powder')
+    ammo = p.Ammo(dm, U.FPS(c['mv_fps'])) if pw is None else p.Ammo(dm, U.FPS(c['mv_fps']), U.Celsius(pw['temp_c']), pw['modifier'], True)
     weapon = p.Weapon(U.Inch(c['sight_in'] if sight_in is None else sight_in), U.Inch(c['twist']))
     atmo = p.Vacuum(U.Foot(altitude_ft)) if vacuum else p.Atmo.icao(U.Foot(altitude_ft))
+    if pw is not None and not vacuum:
+        atmo = p.Atmo(atmo.altitude, atmo.pressure, atmo.temperature, atmo.humidity, U.Celsius(pw['atmo_powder_c']))
     winds = [p.Wind(U.MPH(v), U.Degree(d), None if u is None else U.Foot(u)) for (v, d, u) in WINDS[wind]] if isinstance(wind, str) else wind
     shot = p.Shot(weapon, ammo, U.Degree(look_deg), U.Degree(relative_deg), U.Degree(cant_deg), atmo, winds)
     if c['zero_yd'] is not None:
